@@ -7,7 +7,7 @@ BOUNDS = {
     "quick": "all real 6-tuples M (no invertibility needed for polynomial segments), all points, all t; Move/Line/Close/Quadratic/Cubic: point(t), stored points, *, *=, composition; "
              "paths of <=4 polynomial segments and their subpaths: *, abs, reify; Rect (sharp and rounded corners' straight edges), SimpleLine, Polyline, Polygon (3 points): "
              "segments(transformed), reify (all Rect.reify branches), Path(shape)*M; arcs and circles/ellipses: M(A.point_at_t(tau)) = (A*M).point_at_t(sigma*tau) for a free "
-             "angle tau under every similarity (rotation angle, scale, reflection, translation symbolic) and, separately, under general matrices",
+             "angle tau under every similarity (rotation angle, scale, reflection, translation symbolic) and, separately, under general matrices; histories: a path edited by del / setitem / insert / append (the library re-links the neighbours) and then transformed in place and reified, three skeletons, all coordinates and the matrix symbolic",
     "thorough": "adds paths of 6 segments, second-order composition for shapes, and rounded rectangles under similarities",
 }
 OUTSIDE = ["the arc start-parameter chain Arc.get_start_t / t_at_point / point_at_angle (atan2 -> tan -> modulo with quadrant logic): Arc.point(t) is replaced by point_at_t at a free "
@@ -331,8 +331,34 @@ def h_twin(ctx):
     ctx.claim("twin", pts_eq(ctx, img.control, (m[0] * P[1][0] + m[1] * P[1][1] + m[4], m[2] * P[1][0] + m[3] * P[1][1] + m[5])))   # transposed on purpose
 
 
+def h_path_edited(ctx, kinds, edit):
+    """history: the path is edited (the library re-links the neighbouring segments), then transformed in place and reified"""
+    S = ctx.S
+    p, _ = build_path(ctx, S, kinds)
+    fx, fy, gx, gy = ctx.reals("fx fy gx gy", -V, V)
+    if edit == "del":
+        del p[2]
+    elif edit == "set":
+        p[2] = S.Line((fx, fy), (gx, gy))
+    elif edit == "insert":
+        p.insert(2, S.Line((fx, fy), (gx, gy)))
+    elif edit == "append":
+        p.append(S.Line((fx, fy), (gx, gy)))
+    pre = [[(a.x, a.y) if a is not None else None for a in seg_points(S, seg)] for seg in p]
+    joints = [ctx.and_(ctx.close(a.end.x, b.start.x, 0, 1e-9), ctx.close(a.end.y, b.start.y, 0, 1e-9)) for a, b in zip(list(p), list(p)[1:]) if a.end is not None and b.start is not None]
+    ctx.claim("edited path is connected (to the library's 1e-12 point tolerance)", ctx.and_(*joints))
+    M, m = mat(ctx, S)
+    p *= M
+    p.reify()
+    claim_path(ctx, S, "edited path: path*=M; reify maps every defining point once", p, pre, m)
+    ctx.claim("reify resets the transform", p.transform.is_identity())
+
+
 def harnesses(tier):
     hs = []
+    for pk in ("MLLQL", "MLQCL", "MLLLZ"):
+        for ed in ("del", "set", "insert", "append"):
+            hs.append({"name": "path_edited/%s/%s" % (pk, ed), "fn": "h_path_edited", "params": {"kinds": list(pk), "edit": ed}, "weight": 3})
     for k in ("Move", "Line", "Close", "Quad", "Cubic"):
         hs.append({"name": "segment/%s" % k, "fn": "h_segment", "params": {"kind": k}})
         hs.append({"name": "compose/%s" % k, "fn": "h_compose", "params": {"kind": k}})
